@@ -106,6 +106,15 @@ def run(seed=0):
                     want = [mine.index(i) for i in q]
                     if got != want:
                         return n, {'model': m.class_name, 'added_in_order': mine, 'observed': 'idx2uid(%r) = %r, the devices sit at positions %r' % (form, got, want)}
+        # an idx that was never registered is refused -- also one that merely looks like a registered one (2.5 next to 2, '3' next to 3)
+        for m, mine in ((ss.Bus, order), (ss.PQ, order[::-1])):
+            for missing in (mine[0] + 0.5, str(mine[0]), '%d.0' % mine[-1], -1, 10 ** 6, mine[0] + 0.999999):
+                for q in (missing, [mine[0], missing]):
+                    try:
+                        r = m.idx2uid(q)
+                    except KeyError:
+                        continue
+                    return n, {'model': m.class_name, 'added_in_order': mine, 'observed': 'idx2uid(%r) returned %r; %r was never registered' % (q, r, missing)}
         grp = ss.ACTopology
         got = list(grp.idx2uid(sorted(order)))
         want = [order.index(i) for i in sorted(order)]
